@@ -954,8 +954,62 @@ class Ex:
         if fn is None:
             fn = self.crate.find(callee)
         if fn is not None and fn.kind == "fn":
+            if getattr(self, "merge_pure", False) and getattr(self, "_merge_depth", 0) == 0 and self._pure_sig(fn):
+                return self.call_merged(fn, argv)
             return self.run_fn(fn, argv)
         raise Unsupported("call to %s" % callee)
+
+    _SCALARISH = re.compile(r"^[\s\[\]();,0-9]*((u|i)(8|16|32|64|128|size)|bool|char|[\s\[\]();,0-9])*$")
+
+    def _pure_sig(self, fn):
+        """by-value scalar / array-of-scalar parameters (or shared references to such) and a scalar-ish result: the call cannot
+        change the caller's memory, so its paths can be merged into one if-then-else value"""
+        for _, ty in fn.params:
+            t = ty.strip()
+            if "&mut" in t or "*mut" in t or "*const" in t:
+                return False
+            t = re.sub(r"&('\w+ )?", "", t)
+            if not self._SCALARISH.match(t):
+                return False
+        return bool(self._SCALARISH.match((fn.ret or "").strip())) and (fn.ret or "").strip() not in ("", "()")
+
+    def call_merged(self, fn, argv, max_paths=40):
+        """explore every path of a pure callee here and merge the returned values (path merging at the call boundary);
+        obligations and definitional facts of the sub-paths are kept. Falls back to plain inlining when the callee branches too much."""
+        parent = self.ctx
+        base_pc = len(parent.pc)
+        work, outs = [[]], []
+        nfresh = parent.nfresh
+        obls_keep = []
+        self._merge_depth = 1
+        try:
+            while work:
+                dec = work.pop()
+                if len(outs) + len(work) > max_paths:
+                    raise Unsupported("pure callee %s has more than %d paths" % (fn.key, max_paths))
+                sub = Ctx(dec, parent.prune)
+                sub.pc = list(parent.pc); sub.facts = parent.facts; sub.nfresh = nfresh
+                self.ctx = sub; self.dom.ctx = sub
+                try:
+                    r = self.run_fn(fn, [deep(a) if not isinstance(a, Ref) else a for a in argv])
+                except Infeasible:
+                    r = None
+                nfresh = sub.nfresh
+                obls_keep.extend(sub.obls)
+                work.extend(sub.new_alts)
+                if r is not None:
+                    outs.append((list(sub.pc[base_pc:]), r))
+        finally:
+            self.ctx = parent; self.dom.ctx = parent
+            self._merge_depth = 0
+        parent.nfresh = nfresh
+        parent.obls.extend(obls_keep)
+        if not outs:
+            raise Infeasible()
+        res = outs[-1][1]
+        for conds, r in reversed(outs[:-1]):
+            res = self.ite(z3.And(conds) if conds else z3.BoolVal(True), r, res)
+        return res
 
     # helpers for summaries
     def load(self, ref):
